@@ -201,6 +201,10 @@ func okHeaders(extra ...hf) []hf {
 // set by the shapes that serve several HEADERS blocks: the :status sequence of the stream just built
 var lastInfoCodes []int
 
+// how many `:status 100` blocks the next continue-x stream carries (set by genH2Cases so that every
+// count 1..5 meets every request kind)
+var continueK = 1
+
 type h2gen struct {
 	shape string
 	data  func(r *hk.Rand) []byte
@@ -399,7 +403,7 @@ func h2Sequences() []h2gen {
 			// k interim header blocks with :status 100 exactly (the status the request writer is told about)
 			var b []byte
 			lastInfoCodes = nil
-			for i, n := 0, r.Range(1, 5); i < n; i++ {
+			for i, n := 0, continueK; i < n; i++ {
 				b = append(b, headersFrame(1, []hf{{":status", "100"}}, false, true)...)
 				lastInfoCodes = append(lastInfoCodes, 100)
 			}
@@ -532,8 +536,8 @@ func genH2Cases(r *hk.Rand, quick bool, add func(*Case)) {
 	}
 	for _, g := range seqs {
 		reps := reps
-		if g.shape == "continue-x" && reps < 9 {
-			reps = 9
+		if g.shape == "continue-x" && reps < 15 {
+			reps = 15 // 3 request kinds x 5 counts
 		}
 		for i := 0; i < reps; i++ {
 			if i >= 3 && (strings.Contains(g.shape, "flood") || g.shape == "flow-control-violation") {
@@ -563,6 +567,7 @@ func genH2Cases(r *hk.Rand, quick bool, add func(*Case)) {
 			c.Opts.TimeoutMs = 1500
 			rr := r.Fork()
 			lastInfoCodes = nil
+			continueK = 1 + i%5
 			c.Rounds = []Round{{Data: g.data(rr), Segs: randSegs(r), End: hk.Pick(r, []string{"fin", "fin", "fin", "fin", "fin", "fin", "fin", "fin", "fin", "hold"}), Hold: 2500}}
 			c.InfoCodes = lastInfoCodes
 			if g.shape == "continue-x" {
